@@ -215,6 +215,18 @@ func c07OptionalIEs(c *core.Ctx, fns []*ssa.Function) {
 				if use == "" {
 					continue
 				}
+				// handed to an own function or local closure that tests its parameter itself
+				if callee := ci.Common().StaticCallee(); callee != nil && callee.Blocks != nil && p.IsOwnFn(callee) && core.CallRecv(ci) != ssa.Value(ld) {
+					safe := true
+					for i, a := range ci.Common().Args {
+						if a == ssa.Value(ld) && !paramNilSafe(callee, i, 0) {
+							safe = false
+						}
+					}
+					if safe {
+						continue
+					}
+				}
 				n++
 				perField[fname]++
 				c.Check("P2", fmt.Sprintf("optional-ie:%s:%s#%d", core.FnName(fn), fname, perField[fname]), r.Pos(),
@@ -224,6 +236,34 @@ func c07OptionalIEs(c *core.Ctx, fns []*ssa.Function) {
 		})
 	}
 	c.Floor("P2", n, 6, "uses of optional message IEs")
+}
+
+// paramNilSafe: inside fn, parameter idx is used as a call receiver or argument only where it is known non-nil
+// (comparisons with nil, stores and returns of the pointer itself are harmless).
+func paramNilSafe(fn *ssa.Function, idx int, depth int) bool {
+	if idx >= len(fn.Params) || depth > 3 {
+		return false
+	}
+	prm := fn.Params[idx]
+	for _, r := range *prm.Referrers() {
+		switch x := r.(type) {
+		case ssa.CallInstruction:
+			used := core.CallRecv(x) == ssa.Value(prm)
+			for _, a := range x.Common().Args {
+				if a == ssa.Value(prm) {
+					used = true
+				}
+			}
+			if used && !core.NilKnownAt(x.Block(), prm, false) {
+				return false
+			}
+		case *ssa.FieldAddr, *ssa.UnOp:
+			if !core.NilKnownAt(r.Block(), prm, false) {
+				return false
+			}
+		}
+	}
+	return true
 }
 
 // P3
